@@ -158,6 +158,18 @@ impl RecGen {
         } else {
             rng.usize(self.min_records, self.max_records)
         };
+        // rare stratum: very many tiny records, to cross the 1 000-record buffer
+        // capacity and the 10 000-record progress tick in the pipelines
+        let many = self.max_records >= 16 && rng.chance(1, 1500);
+        let n = if many {
+            if rng.chance(1, 2) {
+                rng.usize(1001, 1040)
+            } else {
+                rng.usize(10000, 10030)
+            }
+        } else {
+            n
+        };
         let mut out: Vec<Rec> = Vec::with_capacity(n);
         // one alphabet for the whole file most of the time
         let file_alpha = ALPHAS[rng.weighted(&self.alpha_w)];
@@ -170,7 +182,11 @@ impl RecGen {
             let seq = if i > 0 && rng.below(100) < self.dup_pct {
                 out[rng.usize(0, i - 1)].seq.clone()
             } else {
-                let len = gen_len(rng, &self.marks, self.max_len).max(self.min_len);
+                let len = if many {
+                    rng.usize(self.min_len, self.min_len + self.marks.iter().copied().max().unwrap_or(8).min(24))
+                } else {
+                    gen_len(rng, &self.marks, self.max_len).max(self.min_len)
+                };
                 gen_seq(rng, len, alpha)
             };
             let mut desc = gen_desc(rng);
@@ -185,7 +201,7 @@ impl RecGen {
         }
         // now and then one record far longer than the rest, so that listings,
         // rows and lines cross the 4 KiB / 8 KiB buffer sizes used along the way
-        if self.max_len >= 150 && !out.is_empty() && rng.chance(1, 16) {
+        if self.max_len >= 150 && !out.is_empty() && !many && rng.chance(1, 16) {
             let i = rng.usize(0, out.len() - 1);
             let len = rng.usize(1500, 9000);
             let alpha = ALPHAS[rng.weighted(&self.alpha_w)];
